@@ -211,6 +211,9 @@ def shards(tier, seed):
     sel = sel[:: max(1, len(sel) // (6 if q else 14))][: (6 if q else 14)]
     for key in sel:
         out.append(("toy_%d_%d_%d" % key, dict(kind="toy", key=key, ndig=2 if q else 3)))
+    # the same contracts in a child interpreter with assert statements stripped (python -O) and another string-hash seed
+    out.append(("child_toy_%d_%d_%d" % sel[0], dict(kind="toy", key=sel[0], ndig=1, _pyopt="opt")))
+    out.append(("child_prod_NIST192p", dict(kind="prod", cname="NIST192p", part=0, parts=3 if q else 1, thorough=False, _pyopt="opt+hashseed")))
     if not q:
         out.append(("repo_test_suite_under_contract", dict(kind="suite")))
     return out
@@ -447,7 +450,7 @@ def _run_toy(ctx, rng, key, ndig):
     i = 0
     _state["reload_every"] = 80
     try:
-        for d in range(1, n):
+        for d in gen.rotated(range(1, n), rng):      # all of them, starting anywhere: which scalar a fresh curve object sees first is part of the history
             sk = ecdsa.SigningKey.from_secret_exponent(d, curve, hashlib.sha256)
             for k in range(1, n):
                 for j in range(ndig):
